@@ -237,10 +237,16 @@ func (f *feedBuf) drainUntilKey(markerKey string, timeout time.Duration, n int) 
 
 // dumpFeed runs a Dump feed with backfill from startCas and returns all its events.
 func dumpFeed(c *rosmar.Collection, startCas uint64, keysOnly bool) ([]sgbucket.FeedEvent, error) {
+	return dumpFeedCkpt(c, startCas, keysOnly, "")
+}
+
+// dumpFeedCkpt: the same, for a feed that keeps a checkpoint document (written when the dump ends). The start CAS is given
+// explicitly, so what an earlier run of the same feed left in its checkpoint has no bearing on what must be delivered.
+func dumpFeedCkpt(c *rosmar.Collection, startCas uint64, keysOnly bool, ckptPrefix string) ([]sgbucket.FeedEvent, error) {
 	var mu sync.Mutex
 	var evs []sgbucket.FeedEvent
 	done := make(chan struct{})
-	args := sgbucket.FeedArguments{ID: "dump", Backfill: startCas, Dump: true, KeysOnly: keysOnly, DoneChan: done}
+	args := sgbucket.FeedArguments{ID: "dump", Backfill: startCas, Dump: true, KeysOnly: keysOnly, DoneChan: done, CheckpointPrefix: ckptPrefix}
 	err := c.StartDCPFeed(context.Background(), args, func(e sgbucket.FeedEvent) bool {
 		mu.Lock()
 		evs = append(evs, e)
